@@ -260,18 +260,26 @@ mod inj {
                 st.lock().unwrap().problems.push(format!("write/end failed: {:?}", take_last_error()));
             }
             lol_html_rewriter_free(r);
+            // the header allows building several rewriters from one builder
+            let r2 = lol_html_rewriter_build(builder, b"utf-8".as_ptr() as *const c_char, 5, lol_html::MemorySettings::new(), sink, ud, true);
             lol_html_rewriter_builder_free(builder);
+            let rc = lol_html_rewriter_write(r2, doc.as_ptr() as *const c_char, doc.len());
+            let rc2 = lol_html_rewriter_end(r2);
+            if rc != 0 || rc2 != 0 {
+                st.lock().unwrap().problems.push(format!("second rewriter from the same builder: write/end failed: {:?}", take_last_error()));
+            }
+            lol_html_rewriter_free(r2);
             lol_html_selector_free(sel);
         }
         let mut s = st.lock().unwrap();
-        let want = "S&lt;\u{e9}<a b=c>x<!--c--></a>";
+        let want = "S&lt;\u{e9}<a b=c>x<!--c--></a>S&lt;\u{e9}<a b=c>x<!--c--></a>";
         if s.out != want.as_bytes() {
             let got = lossy(&s.out);
             s.problems.push(format!("rejected arguments must leave the tokens unchanged and the streaming handler must write S&lt;é: output {got:?}"));
         }
-        if s.drops != 1 {
+        if s.drops != 2 {
             let d = s.drops;
-            s.problems.push(format!("streaming handler drop callback ran {d} times (expected once, and never for refused handlers)"));
+            s.problems.push(format!("streaming handler drop callback ran {d} times (expected once per accepted handler = 2, and never for refused handlers)"));
         }
         s.problems.clone()
     }
@@ -286,7 +294,10 @@ pub fn replay(case: &Value) -> Option<String> {
             let order: FreeOrder = serde_json::from_value(case["order"].clone()).ok()?;
             compare(&cfg, &sched.chunks(&input), order).0
         }
-        "inject" => inj::run().first().cloned(),
+        "inject" => {
+            let p = inj::run();
+            if p.is_empty() { None } else { Some(p.join(" ; ")) }
+        }
         "valgrind" => valgrind_run(true),
         _ => None,
     }
@@ -409,9 +420,12 @@ pub fn run_check(ctx: &Ctx) -> i32 {
     diff_sweep(Some(ctx), Space::Frags { k, max: if quick { 2 } else { 3 } }, &cfgs, l1, true, &format!("differential Rust vs C: F<={} x {} configs x L0,L1,LB x 3 free orders x Stop at every handler index + 2 memory limits", if quick { 2 } else { 3 }, cfgs.len()));
     diff_sweep(Some(ctx), Space::CtxFrags { k, max: 1 }, &cfgs, l1, false, "differential Rust vs C: 18 contexts x F<=1");
     // argument-error injections
-    for p in inj::run() {
-        ctx.exec(1);
-        ctx.violation(p, json!({"kind": "inject"}), &|| inj::run().first().cloned());
+    let problems = inj::run();
+    if !problems.is_empty() {
+        ctx.violation(problems.join(" ; "), json!({"kind": "inject"}), &|| {
+            let p = inj::run();
+            if p.is_empty() { None } else { Some(p.join(" ; ")) }
+        });
     }
     ctx.exec(40);
     ctx.validated(1);
